@@ -40,7 +40,12 @@ func (c *Config) CountField(name string, opts ...Option) (int, error) {
 	}
 
 	if v, ok := c.fields.get(name); ok {
-		return v.Len(makeOptions(opts))
+		n, err := v.Len(makeOptions(opts))
+		if err != nil {
+			ctx := v.Context()
+			return n, raisePathErr(err, v.meta(), "", ctx.path("."))
+		}
+		return n, nil
 	}
 	return -1, raiseMissing(c, name)
 }
